@@ -1,0 +1,29 @@
+// Copyright 2018 The go-python Authors.  All rights reserved.
+// Use of this source code is governed by a BSD-style
+// license that can be found in the LICENSE file.
+
+package parser
+
+import "github.com/go-python/gpython/ast"
+
+// setCtxChecked sets the context of an assignment / del / for target.
+//
+// The elements of tuple, list and starred targets are checked one by
+// one with setCtx, so that an element which can't be a target (eg the
+// call in "f(), a = 1") is reported as a SyntaxError instead of
+// failing the type assertion in ast.Tuple.SetCtx / ast.List.SetCtx.
+func setCtxChecked(yylex yyLexer, target ast.SetCtxer, ctx ast.ExprContext) {
+	switch x := target.(type) {
+	case *ast.Tuple:
+		setCtxs(yylex, x.Elts, ctx)
+		x.Ctx = ctx
+	case *ast.List:
+		setCtxs(yylex, x.Elts, ctx)
+		x.Ctx = ctx
+	case *ast.Starred:
+		setCtx(yylex, x.Value, ctx)
+		x.Ctx = ctx
+	default:
+		target.SetCtx(ctx)
+	}
+}
